@@ -876,8 +876,8 @@ fn type_menu(quick: bool) -> Vec<TypeSpec> {
         vec![
             vec![fnm(NM[0]), fb(bm3)],
             vec![fnm(NM[1]), fb(bm3)],
-            vec![fnm(NM[2]), fb(bm3)],
             vec![fnm(NM[0]), fb(b"\x00\x01\x40")],
+            vec![fnm(NM[2]), fb(bm3)],
         ],
         false,
     );
